@@ -277,6 +277,10 @@ class WcMatch(Generic[AnyStr]):
                 if self.is_aborted():  # pragma: no cover
                     break
 
+            # The break above only leaves the folder loop
+            if self.is_aborted():
+                break
+
             # Search files if they were found
             if files:
                 # Only search files that are in the include rules
